@@ -20,6 +20,7 @@ func init() {
 	vrt.Register("C11_narrow_integer_keys", NarrowIntegerKeys)
 	vrt.Register("C11_receiver_forms", ReceiverForms)
 	vrt.Register("C11_repeated_names", RepeatedNames)
+	vrt.Register("C11_methods_on_pointees", MethodsOnPointees)
 }
 
 type T struct {
@@ -694,5 +695,47 @@ func RepeatedNames() {
 	got, err := render("<%= "+c.expr+" %>", ctx)
 	vrt.Assert(err == nil, "a path with a repeated field name renders: "+c.expr)
 	vrt.Assert(got == c.want, "every level of a path resolves against the element reached so far: "+c.expr)
+	vrt.Cover("done")
+}
+
+// ---- a method with a pointer receiver, reached through a pointer field, runs on the
+// object the field points to (as h.P.Inc() does in Go), not on a copy of it
+type counterP struct{ N int }
+
+func (c *counterP) Inc() int { c.N++; return c.N }
+func (c *counterP) Get() int { return c.N }
+
+type holderP struct {
+	P    *counterP
+	Next *holderP
+}
+
+func MethodsOnPointees() {
+	n := vrt.Int()
+	vrt.Assume(n < 1<<62)
+	inner := &holderP{P: &counterP{N: n}}
+	h := &holderP{P: &counterP{N: n}, Next: inner}
+	ctx := plush.NewContext()
+	ctx.Set("h", h)
+	ctx.Set("hv", *h)
+	ctx.Set("hs", []*holderP{h})
+	ctx.Set("m", map[string]*holderP{"k": h})
+	cases := []struct {
+		in   string
+		obj  *counterP
+		want string
+	}{
+		{"<%= h.P.Inc() %>,<%= h.P.Inc() %>,<%= h.P.Get() %>,<%= h.P.N %>", h.P, itoa(n+1) + "," + itoa(n+2) + "," + itoa(n+2) + "," + itoa(n+2)},
+		{"<%= hv.P.Inc() %>,<%= hv.P.Inc() %>", h.P, itoa(n+1) + "," + itoa(n+2)},
+		{"<%= h.Next.P.Inc() %>,<%= h.Next.P.Inc() %>,<%= h.Next.P.N %>", inner.P, itoa(n+1) + "," + itoa(n+2) + "," + itoa(n+2)},
+		{"<%= hs[0].P.Inc() %>,<%= hs[0].P.Inc() %>", h.P, itoa(n+1) + "," + itoa(n+2)},
+		{"<%= m[\"k\"].P.Inc() %>,<%= h.P.Inc() %>", h.P, itoa(n+1) + "," + itoa(n+2)},
+		{"<%= for (i) in [1, 2] { %><%= h.P.Inc() %>,<% } %>", h.P, itoa(n+1) + "," + itoa(n+2) + ","},
+	}
+	c := cases[vrt.Choice(len(cases))]
+	got, err := render(c.in, ctx)
+	vrt.Assert(err == nil, "a pointer-receiver method reached through a pointer field is callable")
+	vrt.Assert(got == c.want, "the method runs on the object the path leads to: every call sees what the earlier ones did")
+	vrt.Assert(c.obj.N == n+2, "the object the path leads to is the one the method ran on")
 	vrt.Cover("done")
 }
